@@ -868,7 +868,8 @@ def explore(harness: Callable[[Ctx], Any], workers: int = 0, split_depth: int = 
     t0 = time.time()
     out = Result()
     deadline = t0 + budget_s
-    workers = workers or min(16, os.cpu_count() or 1)
+    # (VERIF_WORKERS: development only - fewer processes for runs that share the machine with another run)
+    workers = workers or int(os.environ.get("VERIF_WORKERS") or 0) or min(16, os.cpu_count() or 1)
     # phase 1: frontier = decision prefixes up to split_depth or up to the harness's heavy() marker
     c = Ctx(timeout_ms)
     base_axioms(c.solver)
